@@ -124,12 +124,14 @@ func famC08(g *Gen, o *Out, n int, thorough bool) {
 			finalize = dcw.Close
 			fileBytes = func() []byte { b, _ := os.ReadFile(p); return b }
 		}
+		concFin := g.pick(2) == 0
 		race0 := raceLogSize()
 		var mu sync.Mutex
 		var hist []histOp
 		var panics int32
 		var wg sync.WaitGroup
 		done := make(chan struct{})
+		start := make(chan struct{})
 		for gi := 0; gi < G; gi++ {
 			wg.Add(1)
 			go func(gi int) {
@@ -140,6 +142,7 @@ func famC08(g *Gen, o *Out, n int, thorough bool) {
 					}
 				}()
 				lg := newGen(seeds[gi])
+				<-start
 				for k := 0; k < K; k++ {
 					b := alpha[lg.pick(len(alpha))]
 					h := histOp{g: gi, c: b.C, data: b.D}
@@ -185,6 +188,17 @@ func famC08(g *Gen, o *Out, n int, thorough bool) {
 				}
 			}(gi)
 		}
+		if concFin { // Finalize / Close racing the other goroutines' Puts and reads, at a random moment
+			wg.Add(1)
+			delay := time.Duration(g.pick(400)) * time.Microsecond
+			go func() {
+				defer wg.Done()
+				<-start
+				time.Sleep(delay)
+				finalize()
+			}()
+		}
+		close(start)
 		go func() { wg.Wait(); close(done) }()
 		deadlock := 0
 		select {
@@ -203,6 +217,7 @@ func famC08(g *Gen, o *Out, n int, thorough bool) {
 			final = b2i(checkFinalFile(wo, hist, fileBytes(), api == "def" && !anyPut(hist)))
 		}
 		race := b2i(raceLogSize() > race0)
+		o.Count(fmt.Sprintf("concurrent-finalize=%d", b2i(concFin)))
 		o.Line(fmt.Sprintf("conc api=%s %s goroutines=%d ops=%d", api, wo, G, K),
 			fmt.Sprintf("race=%d panic=%d deadlock=%d rt=%d final=%d _finalize=%d", race, atomic.LoadInt32(&panics), deadlock, rt, final, finOK))
 		o.Count(api)
